@@ -175,6 +175,32 @@ func (st *style) arg(b *strings.Builder, a string, col int) {
 		b.WriteString(quoteArg(a[cut:]))
 		return
 	}
+	if strings.Contains(a, "\n") && t.Coin() {
+		// a double-quoted string that really spans lines: continuation lines indented more, less or
+		// exactly as far as the opening quote, with blanks or tabs, some with trailing blanks before the break
+		lines := strings.Split(a, "\n")
+		b.WriteByte('"')
+		for i, ln := range lines {
+			if i > 0 {
+				if t.Rare(3) {
+					b.WriteString([]string{" ", "\t", "  "}[t.Draw(3)])
+				}
+				b.WriteString(st.nl)
+				switch t.Draw(4) {
+				case 0:
+					b.WriteString(strings.Repeat(" ", col+1))
+				case 1:
+					b.WriteString(strings.Repeat(" ", t.Draw(col+4)))
+				case 2:
+					b.WriteString(strings.Repeat("\t", 1+t.Draw(3)))
+				}
+			}
+			q := quoteArg(ln)
+			b.WriteString(q[1 : len(q)-1])
+		}
+		b.WriteByte('"')
+		return
+	}
 	b.WriteString(quoteArg(a))
 }
 
